@@ -189,6 +189,10 @@ type vf25Case struct {
 	Ops        []vf25Op
 	Bufs       []int
 	Fault      vf25Fault
+	// LateTail > 0 (only without a fault): before its close_notify each side writes a last message of this many bytes
+	// that the peer starts reading only AFTER the close_notify was written too, so that data and alert arrive in the
+	// same transport read (a clean close over TCP)
+	LateTail int
 }
 
 func (c *vf25Case) opsString() string {
@@ -210,7 +214,7 @@ func (c *vf25Case) opsString() string {
 func (c *vf25Case) describe() map[string]any {
 	return map[string]any{"suite": fmt.Sprintf("%#04x", c.Suite.id), "kind": c.Suite.kind, "version": fmt.Sprintf("%#04x", c.Vers),
 		"client": c.ClientKind, "tickets": c.Tickets, "no_dynamic_sizing": c.NoDynamic, "seed": c.Seed, "ops": c.opsString(),
-		"read_bufs": c.Bufs, "fault": fmt.Sprintf("%+v", c.Fault)}
+		"read_bufs": c.Bufs, "late_tail": c.LateTail, "fault": fmt.Sprintf("%+v", c.Fault)}
 }
 
 type vf25RecLog struct {
@@ -551,6 +555,24 @@ func vf25Run(c *vf25Case) (class string, viol string, info string) {
 	}
 	// close phase: close_notify both ways, every reader must see a clean EOF and nothing else
 	for _, d := range []*vf25Dir{c2s, s2c} {
+		if c.LateTail > 0 && c.Fault.Kind == "none" {
+			msg := make([]byte, c.LateTail)
+			data.Read(msg)
+			d.curTag, d.opStartSent = len(c.Ops), len(d.sent)
+			n, err := d.w.Write(msg)
+			d.curTag = -1
+			if err != nil || n != len(msg) {
+				return "error", fmt.Sprintf("last Write(%d bytes) on %s returned (%d, %v)", len(msg), d.name, n, err), ""
+			}
+			d.sent = append(d.sent, msg...)
+			if err := d.wc.CloseWrite(); err != nil {
+				return "error", fmt.Sprintf("close_notify on %s failed: %v", d.name, err), ""
+			}
+			// io.Reader allows the last bytes to come together with io.EOF (the close_notify is already buffered)
+			if err := d.readExactly(c.LateTail, c.Bufs); err != nil && !(err == io.EOF && len(d.recvd) == len(d.sent)) {
+				return "error", fmt.Sprintf("%s: data written just before close_notify: reader failed: %v (delivered %d of %d)", d.name, err, len(d.recvd), len(d.sent)), ""
+			}
+		}
 		if err := d.wc.CloseWrite(); err != nil {
 			return "error", fmt.Sprintf("close_notify on %s failed: %v", d.name, err), ""
 		}
@@ -656,6 +678,9 @@ func vf25GenCase(rt *rapid.T) *vf25Case {
 	nb := rapid.IntRange(1, 4).Draw(rt, "nbufs")
 	for i := 0; i < nb; i++ {
 		c.Bufs = append(c.Bufs, vf25BufChoices[rapid.IntRange(0, len(vf25BufChoices)-1).Draw(rt, "buf")])
+	}
+	if rapid.Bool().Draw(rt, "late_tail") {
+		c.LateTail = rapid.SampledFrom([]int{1, 2, 100, 1000, 16384, 16385, 40000}).Draw(rt, "late_tail_size")
 	}
 	c.Fault.Kind = []string{"none", "none", "flip-body", "flip-body", "flip-header", "truncate"}[rapid.IntRange(0, 5).Draw(rt, "faultkind")]
 	if c.Fault.Kind != "none" {
